@@ -242,7 +242,7 @@ class Packetizer(LiteXModule):
                 ).Else(
                     source.data[:max(header_leftover*8, 1)].eq(sink_d.data[min((bytes_per_clk-header_leftover)*8, data_width-1):])
                 ),
-                source.data[header_leftover*8:].eq(sink.data),
+                If(~sink_d.last | fsm_from_idle, source.data[header_leftover*8:].eq(sink.data)), # Flush beat: keep padding stable.
                 If(source.valid & source.ready,
                     sink.ready.eq(~source.last),
                     NextValue(fsm_from_idle, 0),
